@@ -14,7 +14,11 @@ META = {
                    "|composition input| <= |raw input| is an invariant of every reachable state (select_to_end_reachable); option `dumb` off; the shape "
                    "formatter is a parameter of the theorems (`env.format`; the monitor applies ShapeFormatter::Format while full_shape is on, "
                    "which the two schemas with a punctuator generate); punctuator's own commit: C03.punct_autocommit_eq_preview; commit_clears_punct "
-                   "for the Compose with punctuation components; switcher menu not modelled (out of the property's scope)."),
+                   "for the Compose with punctuation components; key binder: select_to_end_reachable_keybinder (clause b in every state reachable with bindings in play), "
+                   "keybinder_option_action_delivers_nothing (a key bound to toggle / set_option / unset_option is handled and leaves the commit buffer as it was); "
+                   "ascii composer: ascii_capslock_letter_delivered_once, ascii_inline_end_delivers_nothing; "
+                   "the monitor reads the option values the session reports (a binding may have changed full_shape / soft_cursor); switcher menu not modelled "
+                   "(out of the property's scope)."),
     "design_ref": "DESIGN.md §2 M-session, §3 C03",
 }
 
@@ -42,7 +46,10 @@ def monitor(state, op, o):
     if "nocontext" in o or prev is None or "nocontext" in prev:
         return None
     pend_b, pend_a = sc.unhex(prev.get("pending")), sc.unhex(o.get("pending"))
-    opts = state.get("opts", {})
+    opts = dict(state.get("opts", {}))
+    # the values the session itself reported before this call (a key binder binding may have changed an option: the `option`
+    # ops of the history are then not the whole story)
+    opts.update(sc.reported_options(prev))
     # the engine's shape formatter rewrites committed text while full_shape is on (schemas with punctuation generate the option)
     fmt = sc.shape_format if opts.get("full_shape") else (lambda b: b)
     # (d) delivery
